@@ -176,11 +176,16 @@ def gen_valid_project(rng, cfg=None):
         if len(chain) >= 3:
             inh[chain[2]] = chain[1]
         project["cfg"]["inherits"] = inh
+        def leave_to_parent(tree):
+            # leaves only: a reference into a group that is null as a whole has no documented reading
+            for entry in tree:
+                if entry[1]["k"] == "sub":
+                    leave_to_parent(entry[1]["tree"])
+                elif entry[1]["k"] != "null" and rng.random() < 0.5:
+                    entry[1] = {"k": "null"}
         for (ns, l), tree in project["data"].items():
             if l in inh:
-                for entry in tree:
-                    if entry[1]["k"] != "null" and rng.random() < 0.5:
-                        entry[1] = {"k": "null"}
+                leave_to_parent(tree)
     # long values: more than 26 flattened segments exercise the tuple chunking of the view generator
     for n in (getattr(cfg, "long_keys", None) or []):
         ns = pick(rng, namespaces or [None])
